@@ -70,7 +70,8 @@ def enumerations(tier):
                     yield dict(conf, sched=('dfs', 2, (k, parts)))
             else:
                 yield dict(conf, sched=('dfs', 1, (0, 1)))
-    return [('dfs-bounded-preemption', gen, True)]
+    return [('dfs-bounded-preemption', gen, True),
+            ('wide-graphs-300-to-2100-tasks', sc.wide_cases, True)]
 
 
 def judge(case, rec, replay_case=None):
